@@ -139,7 +139,7 @@ package libaudit
 //@ modifies c.pendingAcks, elemsOf(uint32), envbytes, alloc, envlog
 //@ ensures[C16] envlen() > old(envlen()) && sendIs(old(envlen()), 1001, 44)
 //@ ensures[C16] statusWords(old(envlen()), status.Mask, status.Enabled, status.Failure, status.PID, status.RateLimit, status.BacklogLimit, status.Lost, status.Backlog, status.FeatureBitmap, status.BacklogWaitTime, status.BacklogWaitTimeActual)
-//@ ensures[C08] !sendOK(old(envlen())) ==> !isNil(result0) && envlen() == old(envlen()) + 1 && len(c.pendingAcks) == old(len(c.pendingAcks))
+//@ ensures[C08,C17] !sendOK(old(envlen())) ==> !isNil(result0) && envlen() == old(envlen()) + 1 && len(c.pendingAcks) == old(len(c.pendingAcks))
 //@ ensures[C08] mode != NoWait && isNil(result0) ==> sendOK(old(envlen())) && envlen() > old(envlen()) + 1 && ackOKat(envlen() - 1, sentSeq(old(envlen())))
 //@ ensures[C08] mode != NoWait && sendOK(old(envlen())) && ackOKat(envlen() - 1, sentSeq(old(envlen()))) ==> isNil(result0)
 //@ ensures[C08] mode != NoWait && sendOK(old(envlen())) && ackErrAt(envlen() - 1, sentSeq(old(envlen())), n) ==> !isNil(result0) && errIs(result0, errno(n))
